@@ -5,7 +5,9 @@
 //     * on a grid in the plane (|re|, |im| <= 8, step 1/4) plus seeded random points (uniform in the square and
 //       log-uniform magnitudes 2^-20..8 per component): the result stays within the FIXED bound of
 //       /verif/cmath_bounds.json ("complex.<fn>"), error measured norm-wise:
-//           max(|d re|, |d im|) / ulp_T(max(|re_libm|, |im_libm|))          (scalar results: plain ulp error)
+//           max(|d re|, |d im|) / ulp_T(max(|re_libm|, |im_libm|, abs_floor))   (scalar results: plain ulp error)
+//       abs_floor is 0 except for log / log10 (2^-7): log z has a zero at z = 1, where log(abs(z)) can only be as accurate
+//       as abs(z) is absolutely (glibc switches to log1p there), so next to z = 1 the error is measured absolutely,
 //     * conj is exact; abs follows the hypot rules for inf/NaN components; arg follows the atan2 table for zeros.
 //     Nothing else is demanded of non-finite complex arguments (C Annex G is not claimed by etl's formulas).
 //   lerp(a, b, t) ([c.math.lerp]): lerp(a,b,0) == a, lerp(a,b,1) == b, lerp(a,a,t) == a for finite t, the result is not
@@ -230,13 +232,7 @@ auto excluded_c(int f, T x, T y) -> bool
     case F_TAN: return hit("C16.sinh.gcem", cls_sinh(y, is32));
     case F_TANH: return hit("C16.sinh.gcem", cls_sinh(x, is32));
     case F_LOG:
-    case F_LOG10: {
-        // log(z) = (log|z|, arg z): next to z = 1 both parts are tiny and log(abs(z)) keeps only the absolute accuracy of
-        // abs(z) (about one ulp of 1) -> norm-wise relative error >= 1e-3.  Inherent to the formula (glibc uses log1p).
-        long double const dx = static_cast<long double>(x) - 1, dy = y;
-        bool const near_one  = ::sqrtl(dx * dx + dy * dy) < (is32 ? 0x1p-7L : 0x1p-36L);
-        return hit("C16.complex.log.near_one", near_one) || hit("C16.atan2.gcem", cls_atan2(y, x, is32)) || hit("C16.sqrt.gcem", cls_hypot<T>(x, y, T(0)));
-    }
+    case F_LOG10: return hit("C16.atan2.gcem", cls_atan2(y, x, is32)) || hit("C16.sqrt.gcem", cls_hypot<T>(x, y, T(0)));
     case F_ABS: return hit("C16.sqrt.gcem", cls_hypot<T>(x, y, T(0)));
     case F_ARG: return hit("C16.atan2.gcem", cls_atan2(y, x, is32));
     default: return false;
@@ -266,7 +262,8 @@ auto case_c(int f, T x, T y, bool run_mode) -> std::string
     } else if (!fin_e) {
         d = fail("NaN/inf where libm returns a finite value");
     } else {
-        long double const scale = ::fmaxl(::fabsl(static_cast<long double>(r.re)), ::fabsl(static_cast<long double>(r.im)));
+        // log z has a zero at z = 1: next to it the error is measured in ulps of abs_floor (2^-7), i.e. absolutely
+        long double const scale = ::fmaxl(::fmaxl(::fabsl(static_cast<long double>(r.re)), ::fabsl(static_cast<long double>(r.im))), static_cast<long double>(c16_floor(k_bounds[f])));
         long double const diff  = ::fmaxl(::fabsl(static_cast<long double>(e.re) - r.re), ::fabsl(static_cast<long double>(e.im) - r.im));
         long double const u     = diff / ulp_of<T>(scale);
         if (g_measure) {
